@@ -594,6 +594,9 @@ class RTDCWriter:
 
         # update version
         old_version = meta.get("setup", {}).get("software version", "")
+        if not isinstance(old_version, (str, bytes, type(None))):
+            # same conversion as for all other string metadata below
+            old_version = str(old_version)
         new_version = self.version_brand(
             old_version=old_version or None,
             write_attribute=False
